@@ -6,8 +6,7 @@ package c09
 // that are non-terminating by the language definition are handled by
 // byDefinition (funcs.go) and fmtRisk (format.go).
 var skipTable = []skipEntry{
-	// (read-line <closed string stream>) spins for ever
-	{Fn: "common-lisp:read-line", Args: []string{"@closedstream"}, Finding: "read-line-closed-stream"},
+	// (read-line <closed string stream>) span for ever until c7da2ea; generated again since.
 }
 
 // fmtSkips: format control strings that are not generated (beyond fmtRisk).
